@@ -1008,13 +1008,35 @@ def m_version(rng, msg):
     return join_msg(fl, hs, body)
 
 
+# header-block lines of odd shapes (also: lines made of white space only - a continuation line with nothing on it)
+ODD_LINES = [b'NoColonHere', b'Bad Name: v', b'X\x01Y: v', b': empty-name', b'X-Ok : v', b'(paren): v', b' leading: v',
+             b'\tcont-first', b'X:', b'X: ' + b'v' * 5, b'X@Y: v', b'"q": v', b' ', b'\t', b' \t ', b'  \t\t  ', b' :', b'\t:v',
+             b'X: a\r\n ', b'X: a\r\n \t\r\n b']
+
+
+def directed_odd_lines(rng):
+    """every odd line shape at every position of a small header block, for a request that would otherwise be answered and
+    for one that would otherwise be rejected"""
+    cases = []
+    blocks = [[b'Host: h', b'X-Note: a', b'Accept: */*'], [b'X-Note: a', b'Accept: */*']]
+    for hs0 in blocks:
+        for odd in ODD_LINES:
+            for pos in range(len(hs0) + 1):
+                hs = list(hs0)
+                hs.insert(pos, odd)
+                msg = join_msg(b'GET / HTTP/1.1', hs, b'')
+                segs = cut(rng, msg, rng.choice([0, 0, 1]))
+                cases.append({'kind': 'conn', 'beh': 'ok', 'secure': 0, 'steps': close_script(script(rng, segs)),
+                              'ops': ['header', 'odd-line-at-%d' % pos]})
+    return cases
+
+
 def m_header(rng, msg):
     p = split_msg(msg)
     if not p:
         return msg
     fl, hs, body = p
-    bad = rng.choice([b'NoColonHere', b'Bad Name: v', b'X\x01Y: v', b': empty-name', b'X-Ok : v', b'(paren): v', b' leading: v',
-                      b'\tcont-first', b'X:', b'X: ' + b'v' * 5, b'X@Y: v', b'"q": v'])
+    bad = rng.choice(ODD_LINES)
     hs.insert(rng.randint(0, len(hs)), bad)
     return join_msg(fl, hs, body)
 
@@ -1366,6 +1388,7 @@ def gen_cases(ctx):
     sc = ctx.scale
     cases = []
     cases += directed_interpreted(rng)
+    cases += directed_odd_lines(rng)
     # fixed + every truncation point of the fixed ones (deliver the prefix, then disconnect)
     for msg, beh in FIXED:
         cases.append({'kind': 'conn', 'beh': beh, 'secure': 0, 'steps': close_script(script(rng, [msg])), 'ops': ['fixed']})
